@@ -23,7 +23,10 @@ Fidelity: exact, with these representation choices (all stated in NOTES_rle.md):
   `break`s of the C code all lead to the loop exit because `has_next` is false after an error;
 * the encoder never fails: `carquet_buffer_append` results are ignored by the C code
   (allocation failure is outside this model), `enc->status` is always OK.
-Widths above 32 are outside the model (stack overflow / undefined shifts in C, see NOTES).
+Decoder widths above 32 are refused by the repaired code (F80, fixes/F80-rle-decoder-bit-width.patch:
+`carquet_rle_decoder_init` sets INVALID_RLE, `carquet_rle_decode_levels` returns 0); the pinned
+behaviour (shifts of a 32-bit value by 32 and more, undefined) is `Impl.RlePreFix.readRunValuePreF80`.
+Encoder widths above 32 are outside the model (stack buffers of 4 / 32 bytes in C, see NOTES_rle).
 -/
 namespace Carquet.Impl.Rle
 open Carquet.Impl
@@ -207,8 +210,13 @@ structure Dec where
   status : Status
   deriving DecidableEq, Repr
 
-/-- `carquet_rle_decoder_init(dec, data, size, bit_width)` -/
-def Dec.init (w : Nat) (data : List UInt8) : Dec := ⟨w, data, false, 0, 0, [], .ok⟩
+/-- the widths the decoders accept (F80): `!(bit_width < 0 || bit_width > 32)` -/
+def maxWidth : Nat := 32
+
+/-- `carquet_rle_decoder_init(dec, data, size, bit_width)`; a width above 32 leaves the decoder in
+status INVALID_RLE (fixes/F80-rle-decoder-bit-width.patch): it never delivers a value -/
+def Dec.init (w : Nat) (data : List UInt8) : Dec :=
+  ⟨w, data, false, 0, 0, [], if w ≤ maxWidth then .ok else .invalidRle⟩
 
 /-- `start_new_run(dec)` (recursion on empty runs; each level consumes ≥ 1 byte, fuel below).
 Order of the checks in the RLE branch as repaired by F31: header, value bytes, then the
@@ -477,9 +485,10 @@ def decodeLevelsPreF58 (w : Nat) (bytes : List UInt8) (maxValues : Nat) : List I
   levelsLoopPreF58 w (bytes.length + 1) bytes maxValues
 
 /-- `carquet_rle_decode_levels(input, input_size, bit_width, output, max_values)`: the levels
-stored (their number is the return value; never an error), as repaired by F58 -/
+stored (their number is the return value; never an error), as repaired by F58; no levels at a width
+above 32 (F80: `if (bit_width < 0 || bit_width > 32) return 0;`) -/
 def decodeLevels (w : Nat) (bytes : List UInt8) (maxValues : Nat) : List Int :=
-  levelsLoop w (bytes.length + 1) bytes maxValues
+  if w ≤ maxWidth then levelsLoop w (bytes.length + 1) bytes maxValues else []
 
 /-- results of `carquet_rle_decode_levels_prefixed` other than success (both return −1 and
 set `*bytes_consumed = 0`) -/
